@@ -116,6 +116,9 @@ func (a *caiAn) eval(e ast.Expr, st *cState) (cVal, []*cState) {
 					return b, one
 				}
 				if rec.Generic {
+					if isIntegerType(f.Type()) {
+						return vInt{L: Sym("loop." + f.Name())}, one
+					}
 					return vBool{Pred: "loop." + f.Name()}, one
 				}
 				return a.zero(f.Type(), f.Name()), one
@@ -537,7 +540,46 @@ func (a *caiAn) evalCall(e *ast.CallExpr, st *cState) (cVal, []*cState) {
 			return a.doCompileChild(e, st)
 		case a.startLoop:
 			id := a.id()
-			st.Loops[id] = &loopRec{Sets: map[*types.Var]int{}, Bools: map[*types.Var]cVal{}, BaseH: st.H}
+			rec := &loopRec{Sets: map[*types.Var]int{}, Bools: map[*types.Var]cVal{}, BaseH: st.H}
+			st.Loops[id] = rec
+			// fields of the record initialised from the call's arguments: &loop{kind: kind}
+			if fd := a.methods[m]; fd != nil && fd.Type.Params != nil {
+				var params []types.Object
+				for _, fl := range fd.Type.Params.List {
+					for _, nm := range fl.Names {
+						params = append(params, a.info.Defs[nm])
+					}
+				}
+				ast.Inspect(fd.Body, func(n ast.Node) bool {
+					cl, ok := n.(*ast.CompositeLit)
+					if !ok || core.NamedOf(a.info.TypeOf(cl)) != a.loopT {
+						return true
+					}
+					for _, el := range cl.Elts {
+						kv, ok := el.(*ast.KeyValueExpr)
+						if !ok {
+							continue
+						}
+						kid, ok := kv.Key.(*ast.Ident)
+						if !ok {
+							continue
+						}
+						f, _ := a.info.Uses[kid].(*types.Var)
+						vid, ok := kv.Value.(*ast.Ident)
+						if f == nil || !ok {
+							continue
+						}
+						for i, po := range params {
+							if a.info.Uses[vid] == po && i < len(e.Args) {
+								if av, ok := a.evalPure(e.Args[i], st); ok {
+									rec.Bools[f] = av
+								}
+							}
+						}
+					}
+					return true
+				})
+			}
 			return vLoop{ID: id}, one
 		case a.currentLoop:
 			id := a.id()
@@ -1173,13 +1215,11 @@ func (a *caiAn) expectedLoopSetHeight(setID int, st *cState) *Lin {
 			}
 			h := l.BodyH
 			if f.Name() == a.breakField {
-				for bf, bv := range l.Bools {
-					if bf.Name() == a.flagField {
-						if b, ok := bv.(vBool); ok && b.Known && b.B {
-							h = h.AddK(-1)
-						} else if ok && !b.Known {
-							h = h.Sub(Sym("[" + b.Pred + "]"))
-						}
+				if b, ok := a.flagOn(l); ok {
+					if b.Known && b.B {
+						h = h.AddK(-1)
+					} else if !b.Known {
+						h = h.Sub(Sym("[" + b.Pred + "]"))
 					}
 				}
 			}
@@ -1187,4 +1227,37 @@ func (a *caiAn) expectedLoopSetHeight(setID int, st *cState) *Lin {
 		}
 	}
 	return nil
+}
+
+// flagOn evaluates the "breaking pops the iterator" predicate (a.flagField: a
+// bool field "f", or an enum test "eq:loop.f:K") on a concrete loop record.
+func (a *caiAn) flagOn(l *loopRec) (vBool, bool) {
+	pred := a.flagField
+	if strings.HasPrefix(pred, "eq:loop.") {
+		rest := strings.TrimPrefix(pred, "eq:loop.")
+		i := strings.LastIndex(rest, ":")
+		if i < 0 {
+			return vBool{}, false
+		}
+		fname, kstr := rest[:i], rest[i+1:]
+		for f, v := range l.Bools {
+			if f.Name() != fname {
+				continue
+			}
+			if iv, ok := v.(vInt); ok && iv.L.IsConst() {
+				return vBool{Known: true, B: fmt.Sprint(iv.L.K) == kstr}, true
+			}
+			return vBool{Pred: pred}, true
+		}
+		// never assigned: the zero value
+		return vBool{Known: true, B: kstr == "0"}, true
+	}
+	for f, v := range l.Bools {
+		if f.Name() == pred {
+			if b, ok := v.(vBool); ok {
+				return b, true
+			}
+		}
+	}
+	return vBool{}, false
 }
